@@ -253,6 +253,11 @@ def _worker(args):
     mod = importlib.import_module(modname)
     acc = Acc(seed, lean=getattr(mod, "LEAN", False))
     acc.breaker = True
+    from . import logging_for, set_logging
+
+    on = logging_for(tier, idx)
+    set_logging(on)
+    acc.counters["shards_run_with_debug_logging_on" if on else "shards_run_with_logging_disabled"] += 1
     t0 = time.time()
     limit = int(os.environ.get("VERIF_SHARD_TIMEOUT", "3600"))
     own_watchdog = getattr(mod, "OWN_WATCHDOG", False)
